@@ -79,12 +79,20 @@ class C06(props.Prop):
             # the same output file name
             'restarts': rng.choice([0, 0, 1, 2]) if tier == 'quick' else
             rng.choice([0, 2, 4]),
+            # torn write / failing close (full disk, I/O error) at that many
+            # low-level operations on the output file
+            'disk_faults': 3 if tier == 'quick' else 12,
         }
 
     def focus(self, case, viol):
         pt = (viol.get('detail') or {}).get('point')
         c = copy.deepcopy(case)
-        c['points'] = [pt] if pt is not None else []
+        if pt is not None and pt[0] == 'disk':
+            c['points'] = []
+            c['disk_points'] = [pt[1:]]
+        else:
+            c['points'] = [pt] if pt is not None else []
+            c['disk_points'] = []
         return c
 
     # ---------------------------------------------------------------------------
@@ -358,6 +366,59 @@ class C06(props.Prop):
                 v.probes[f'interrupt_outcome.{rb.outcome}'] += 1
             if rb.nthreads > 2:
                 v.probes['threads_left'] += 1
+        # -- disk faults inside rewrites ----------------------------------------------
+        n_ops = rec.counters.get('out_file_lowlevel_ops', 0)
+        if case.get('disk_points') is not None:
+            dpoints = [tuple(p) for p in case['disk_points']]
+        elif case.get('points') is not None:
+            dpoints = []
+        else:
+            nd = min(n_ops, case.get('disk_faults', 3))
+            dpoints = [(k, prng.choice(['ENOSPC', 'EIO']),
+                        prng.random() < 0.3)
+                       for k in sorted(prng.sample(range(1, n_ops + 1), nd))]
+        for (k, err, sticky) in dpoints:
+            if time.time() - t_case > case.get('case_budget', 6) * 1.5:
+                v.probes['points_skipped_for_time'] += 1
+                continue
+            sb = dict(spec)
+            sb['choices'] = res.choices
+            sb['faults'] = {'out_io': {'at': k, 'errno': err,
+                                       'sticky': sticky}}
+            rb = sim.execute(sb)
+            v.absorb(rb)
+            v.evaluations += 1
+            if str(rb.outcome).startswith('harness'):
+                v.probes['interrupt_harness_problem'] += 1
+                continue
+            recb = rb.rec
+            fired = sum(c for kk, c in recb.counters.items()
+                        if kk.startswith('fault.out_io_error'))
+            if not fired:
+                continue
+            ntkeys.add((res.trace_digest, 'disk', k))
+            pt = ['disk', k, err, sticky]
+            self.check_observations(rb, v, complete, 'disk-fault', point=pt)
+            self.check_file_is_adopted_input(rb, v, pt)
+            done = recb.rewrites_done
+            allowed = [recb.complete_texts[done - 1] if done >= 1 else None]
+            if recb.rewrite_interrupted and done < len(complete):
+                allowed.append(complete[done])
+            final = rb.final_out
+            if final not in allowed:
+                kind = _kind(final, [a for a in allowed if a is not None] +
+                             complete)
+                v.violate(
+                    'torn-after-disk-fault',
+                    f'C06:disk-fault-leaves-{kind}-file',
+                    f'after {err} at low-level operation {k} on the output '
+                    f'file{" (disk stays full)" if sticky else ""} the output '
+                    f'file is not an accepted input ({kind})',
+                    point=pt,
+                    left=(final or b'')[:200].decode(errors='replace'),
+                    expected_one_of=[(a or b'')[:120].decode(errors='replace')
+                                     for a in allowed])
+            v.probes[f'disk_fault_outcome.{rb.outcome}'] += 1
         if case.get('restarts') and case.get('points') is None:
             self.restart_after_kill(case, spec, res, v)
         v.nontrivial = bool(ntkeys) or (rec.n_points_in_rewrite > 0)
